@@ -80,6 +80,7 @@ func Parse(fontInfo *sfnt.Font, input string) (lookups gtab.LookupList, err erro
 type parser struct {
 	tokens  <-chan item
 	backlog []item
+	last    item // the most recent item received from the lexer
 
 	fontInfo *sfnt.Font
 	cmap     cmap.Subtable
@@ -1345,7 +1346,14 @@ func (p *parser) readItem() item {
 		p.backlog = p.backlog[:n]
 		return item
 	}
-	return <-p.tokens
+	item, ok := <-p.tokens
+	if !ok {
+		// The lexer has finished.  Keep returning its final item (EOF or
+		// error), so that error messages still carry a line number.
+		return p.last
+	}
+	p.last = item
+	return item
 }
 
 func (p *parser) peek() item {
